@@ -478,7 +478,7 @@ def _decide_with_doubled_tol(ctx, C, impl, ref, rerun):
     return False
 
 
-def compare_with_model(ctx, C, impl, got, mres, what, replay, rerun=None):
+def compare_with_model(ctx, C, impl, got, mres, what, replay, rerun=None, tol=TOL_MODEL):
     """got: call_impl result of the real code, mres: model_result.  Returns True when they agree.
     rerun(tol) re-runs the implementation with another tolerance (used when one side ran into the
     iteration cap because its pseudo log-likelihood keeps changing at rounding-noise level)."""
@@ -493,7 +493,7 @@ def compare_with_model(ctx, C, impl, got, mres, what, replay, rerun=None):
             what, got.get('error', 'returned'), mres.get('error', 'returned')), replay)
         return False
     d = maxdiff(got['ok'], mres['ok'])
-    if d <= TOL_MODEL:
+    if d <= tol:
         return True
     cap_real = 'ConvergenceWarning' in got.get('warned', [])
     cap_model = bool(mres.get('warned'))
@@ -504,14 +504,21 @@ def compare_with_model(ctx, C, impl, got, mres, what, replay, rerun=None):
             return True
     # the convergence test compares libm/numpy logarithms: look at neighbouring iterates
     k = mres['n_iter'] + 1
-    ks = [x for x in (k - 2, k - 1, k + 1, k + 2) if x >= 1]
+    # slowly converging inputs: |dlogl| hovers around tol for many sweeps, so the stopping sweep of
+    # model and implementation (different log implementations, 8-term sums) may be several sweeps apart
+    ks = [k + o for o in (-1, 1, -2, 2, -3, 3, -4, 4, -5, 5, -6, 6, -8, 8, -10, 10, -12, 12) if k + o >= 1]
     r = ctx.driver([{'op': 'C12.iterates', 'n': len(C), 'C': mat_bits(C), 'impl': impl, 'ks': ks}])[0]
     for kk, it in zip(ks, r.get('ok', [])):
         if 'ok' in it:
             cand = (mat_unbits(it['ok']['T']), np.array([unbits(b) for b in it['ok']['pi']]))
-            if maxdiff(got['ok'], cand) <= TOL_MODEL:
+            if maxdiff(got['ok'], cand) <= tol:
                 ctx.skip('stopping test rounding-sensitive: implementation matches the model iterate %+d sweeps away' % (kk - k))
                 return True
+    if rerun is not None and d <= 1e-6:
+        # |dlogl| hovers at the tolerance for thousands of sweeps on slowly converging inputs, so model
+        # and implementation may stop far apart although both are within 1e-6 of each other
+        if _decide_with_doubled_tol(ctx, C, impl, mres, rerun):
+            return True
     ctx.disagreement('%s: T/pi differ from the Float model by %.3g' % (what, d), replay)
     return False
 
@@ -651,6 +658,9 @@ def check_matrix(ctx, C, kind, m_py, m_c, sparse_fmt=None, int_dtype=False):
             else:
                 ctx.skip('py/compiled cross check undecided (slow convergence)')
 
+    def fimpl_rerun_py(tol):
+        return call_impl(builders._prinz_mle_py, C, cpu_seconds=ctx.n(20, 90), tol=tol)
+
     # builders.mle: dense int / dense float / sparse (not repeated for runs that went to the cap)
     if 'py' in results and 'ok' in results['py'] and not capped:
         arg = C
@@ -680,7 +690,7 @@ def check_matrix(ctx, C, kind, m_py, m_c, sparse_fmt=None, int_dtype=False):
             prob = validity_problem(*got['ok'])
             if prob:
                 ctx.violation('builders.mle: %s' % prob, r)
-            compare_with_model(ctx, C, 'py', got, m_py, 'builders.mle', r)
+            compare_with_model(ctx, C, 'py', got, m_py, 'builders.mle', r, rerun=fimpl_rerun_py)
 
 
 def warn_site_check(ctx):
@@ -741,8 +751,10 @@ def closed_pair_correspondence(ctx):
             ctx.tag('closed-pair(a==0)-correspondence')
             if got.get('error') == 'cpu-timeout':
                 continue
+            # not strongly connected: the mass of the transient states drains slowly, so the stopping
+            # sweep matters more than on in-scope inputs; a wrong `a == 0` branch changes T by >> 1e-6
             compare_with_model(ctx, C, impl, got, model_result(m), '%s estimator, closed pair' % impl,
-                               dict(case_dict(C, 'closed-pair'), via=impl))
+                               dict(case_dict(C, 'closed-pair'), via=impl), tol=1e-6)
         if 'ok' in res['py'] and 'ok' in res['compiled'] and \
                 not (res['py']['warned'] or res['compiled']['warned']) and \
                 maxdiff(res['py']['ok'], res['compiled']['ok']) > 1e-4:
@@ -825,7 +837,7 @@ def replay(ctx, data):
         for impl, f in (('py', builders._prinz_mle_py), ('compiled', builders._prinz_mle)):
             m = model_result(ctx.driver([model_req(C, impl)])[0])
             compare_with_model(ctx, C, impl, call_impl(f, C, cpu_seconds=60), m,
-                               '%s estimator, closed pair' % impl, dict(data, via=impl))
+                               '%s estimator, closed pair' % impl, dict(data, via=impl), tol=1e-6)
         return
     r = ctx.driver([model_req(C, 'py'), model_req(C, 'compiled')])
     check_matrix(ctx, C, kind, model_result(r[0]), model_result(r[1]),
